@@ -193,6 +193,9 @@ def families(macro):
     # destructuring parameters: the pattern as a whole is one key part
     out.append(Fx(macro, [], ['@(a, b): (i32, i32)', 'i32'], None, 'i32', 'K'))
     out.append(Fx(macro, [], ['u8', '@(s, (n, m)): (String, (u8, u8))'], '&self', 'i32', 'K'))
+    # parameters whose name starts with an underscore are parameters like any other (the body may well read them)
+    out.append(Fx(macro, [], ['i32', '@_scale: i32'], None, 'i32', 'K'))
+    out.append(Fx(macro, A(('limit', '3')), ['@_a: String', '@__b: u8'], '&self', 'i32', 'K'))
     # L/T/M/F: values x policies
     for i, lim in enumerate(['1', '3', '1000']):
         for pol in POLICIES:
